@@ -168,6 +168,8 @@ class Region(object):
         area : float
             The area of the region.
         """
+        # normalise first, so that no pixel is counted along with its parent
+        self._renorm()
         area = 0
         for d in range(1, self.maxdepth+1):
             area += len(self.pixeldict[d]) * \
